@@ -77,7 +77,8 @@ func Single(t *testing.T, routerID string, p PeerSpec, out bool, delays []int64,
 // PrevSession is an earlier session of the peer under test (on the outbound
 // direction: of the same FSM object): Established with the given remote hold
 // time, then ended by the remote with a TCP close ("fin"), a Cease ("cease") or a
-// Cease with a faulty header glued behind it ("cease+junk").
+// Cease with a faulty header glued behind it ("cease+junk"), or by corebgp itself after the
+// update handler returned a Cease ("handler-cease").
 type PrevSession struct {
 	Hold uint16 `json:"hold"`
 	End  string `json:"end"`
@@ -165,6 +166,11 @@ func SinglePrev(t *testing.T, routerID string, p PeerSpec, out bool, delays []in
 			switch ps.End {
 			case "cease":
 				c.RemoteSend(wire.Notif{Code: 6, Sub: 4}.Frame(), nil)
+				w.Settle()
+			case "handler-cease":
+				// corebgp itself ends the session: the update handler returns a Cease
+				// (no damping), corebgp sends it and closes
+				c.RemoteSend(wire.Frame(wire.TypeUpdate, MagicUpdate(6, 2, nil)), nil)
 				w.Settle()
 			case "cease+junk":
 				// a header with a bad marker right behind the Cease, in the same
